@@ -509,8 +509,10 @@ def _poly(case):
     ids = case.get("ids") or ["x%d" % (j + 1) for j in range(len(case["bounds"]))]
     vs = [puan.variable.support_vector_variable()] + [puan.variable(i, tuple(b)) for i, b in zip(ids, case["bounds"])]
     idx = case.get("index")
-    arr = numpy.array(case["rows"], dtype=numpy.int64).reshape(len(case["rows"]), len(vs))
+    arr = numpy.array(case["rows"], dtype={"int16": numpy.int16, "int32": numpy.int32}.get(case.get("dtype"), numpy.int64)).reshape(len(case["rows"]), len(vs))
     kw = {"index": [puan.variable(i, (0, 1)) for i in idx]} if idx else {}
+    if case.get("dtype"):
+        kw["dtype"] = arr.dtype
     return pnd.ge_polyhedron(arr, variables=vs, **kw)
 
 def _pp(P, tok):
